@@ -179,7 +179,8 @@ pub fn base_builder(cfg: &CacheCfg, listener: Option<Arc<Recorder>>) -> CacheBui
   if !cfg.default_policy && !(cfg.capacity.is_none() && cfg.policy == Policy::TinyLfu) {
     let p = cfg.policy;
     let shard_cap = match cfg.capacity {
-      Some(c) => ((c as f64) / (cfg.shards as f64)).ceil() as u64,
+      // the builder rounds the shard count up to a power of two
+      Some(c) => ((c as f64) / (cfg.shards.max(1).next_power_of_two() as f64)).ceil() as u64,
       None => 1 << 40,
     };
     b = b.cache_policy_factory(move || policy_box(p, shard_cap));
